@@ -7,23 +7,31 @@ REGISTRATION = {
     "technique": "Lean 4 invariant proofs over an executable model of the model store + differential "
                  "correspondence against the real gin handlers on a scratch store",
     "category": "proof",
-    "text": "Kernel-checked theorems over a Lean model of the blob/manifest store and of create, copy, delete, "
-            "blob upload and the startup prune (all stores, all requests, all Go-map iteration orders): the "
-            "completeness invariant and the frame property are preserved, startup prune leaves exactly the "
-            "referenced blobs, case twins cannot appear from a consistently spelled store. The model is tied to "
-            "the real handlers by running random operation histories through the real gin engine and comparing "
-            "result, listing, manifests and blob set after every operation; the property is also evaluated "
-            "directly on the files the real code leaves behind (re-hashing every blob).",
+    "text": "Kernel-checked theorems over a Lean model of the model store (blob files keyed by digest, every other "
+            "file of the blobs directory by name class, manifests readable/corrupt) and of blob upload, create (FROM / "
+            "files, auto-detected template+params layers, TEMPLATE/SYSTEM/LICENSE/PARAMETERS overrides in the real "
+            "drop-then-store order), copy, delete and the startup sequence (fixBlobs, corrupt-manifest gate, "
+            "PruneLayers per file-name class), for all stores, requests and Go-map iteration orders: the completeness "
+            "invariant and the frame property are preserved; every listed model is complete and show answers 200 "
+            "along every history; after the startup prune exactly the referenced blobs remain and no file of any "
+            "other name class; no operation creates a case twin; a failed create changes no manifest. The theorems "
+            "are stated for the pinned and for the repaired variants of four findings (F16a, F16b, N1, N2); the "
+            "driver probes which variant the tree under test implements. The model is tied to the real gin handlers "
+            "(streaming and non-streaming create) by random operation histories compared after every operation "
+            "(result, listing, every manifest, every file of blobs/), and the property is evaluated on the real "
+            "files (every blob re-hashed).",
     "design_ref": "DESIGN.md §5 C04, §6 F16",
-    "note": COMMON_NOTE + "Modelled, not verified: SHA-256 and GGUF decoding are uninterpreted parameters of the "
-            "model (the oracle instantiates them with real SHA-256 and the metadata the real decoder reported); "
-            "template validity is an input flag; pull, safetensors conversion, quantization, adapters, licenses "
-            "and messages are outside the model; the startup sequence of Serve is transcribed in the driver "
-            "(fixBlobs, Manifests(false) gate, PruneLayers, PruneDirectory) and checked textually against "
-            "routes.go on every run; a case-sensitive file system is assumed.",
+    "note": COMMON_NOTE + "Parameters of the model, fed from the real functions by the driver: SHA-256 (oracle: real "
+            "SHA-256; theorems: any collision-free hash, HashInj), GGUF decoding and template.Named (metadata and "
+            "auto-detected template/params bytes per pool file), template validity. Guards that remain on the "
+            "repaired tree: files planted under a blob name hold that content (LitterOk/LegacyOk, non-API faults "
+            "only). Outside the model: pull, MESSAGES, adapters/projectors, safetensors, quantize, directories "
+            "inside blobs/, case-insensitive file systems. Tie 1 (decide over facts regenerated from the source): the "
+            "digest pattern of GetBlobsPath and the startup sequence of Serve, which the driver transcribes.",
 }
 
-MODULES = ["OllamaVerif.Properties.C04", "OllamaVerif.Proofs.Store", "OllamaVerif.Model.Store", "OllamaVerif.Tie.C04"]
+MODULES = ["OllamaVerif.Properties.C04", "OllamaVerif.Proofs.Store", "OllamaVerif.Proofs.StoreShow", "OllamaVerif.Model.Store",
+           "OllamaVerif.Tie.C04"]
 THEOREMS = [
     # pinned tree (guards)
     "OllamaVerif.C04.op_preserves_NameInv",
@@ -43,6 +51,10 @@ THEOREMS = [
     "OllamaVerif.C04.no_case_twins_fixed",
     "OllamaVerif.C04.reachable_no_twins_fixed",
     "OllamaVerif.C04.failed_create_changes_nothing_fixed",
+    # the first clause literally: listed => complete and show answers 200
+    "OllamaVerif.C04.listed_can_be_shown",
+    "OllamaVerif.C04.op_preserves_ShowInv",
+    "OllamaVerif.C04.history_listed_complete_and_shown_fixed",
     "OllamaVerif.C04.op_preserves_NameInv_fixedAlias",
     # the guard about auto-detected layers (N2): met by every `from` create, void once N2 is repaired, decidable
     "OllamaVerif.C04.apartOp_of_from",
@@ -136,7 +148,7 @@ def run(ctx):
     regenerate(ctx)
     ctx.lean_check(MODULES, THEOREMS)
     import os
-    env = {"VERIF_N": ctx.scale(300, 5000), "VERIF_OPS": 40,
+    env = {"VERIF_N": ctx.scale(300, 4000), "VERIF_OPS": 40,
            "VERIF_CORPUS": os.path.join(core.ROOT, "corpus", "C04")}
     if ctx.replay:
         env["VERIF_REPLAY"] = ctx.replay_line_file()
